@@ -106,6 +106,8 @@ PROPERTIES["C16"] = {
        for s in ((1, 4), (2, 9), (0, 0), (1, 16))]
     + [MH("c16_woff_k%d" % k, inputs="package with 2-entry signature header (3 padding bytes), 1-entry main header, 3 payload bytes, contents symbolic", timeout=600,
           bounds="Package::write into a sink accepting %d byte(s) per call, then get_package_segment_offsets vs the positions in the bytes the sink received" % k, covers_unsat_ok=["write fails"]) for k in (1, 2, 3, 5)]
+    + [MH("c16_resid_%d" % r, inputs="package whose signature header store has %d symbolic bytes (%d padding bytes)" % (r, (-r) % 8), timeout=300, covers_unsat_ok=["write fails"],
+          bounds="offsets vs the bytes Package::write emits, every signature store size mod 8 (two periods)") for r in range(0, 17)]
     + [MH("c16_built_" + n, inputs="a package built by this library with files of %s symbolic bytes" % (n.replace("_", "/") if n != "empty" else "no"), timeout=900,
           bounds="offsets of a built package vs the bytes Package::write emits") for n in ("empty", "1", "2_3")]
     + [H("c16_twin", role="twin", timeout=60)],
@@ -153,6 +155,8 @@ PROPERTIES["C14"] = {
     ] + [MH(n, inputs="package with 2-entry signature header, 1-entry main header, 3 payload bytes, contents symbolic; sink script symbolic", timeout=900,
             bounds="Package::write / PackageMetadata::write from MIR into a scripted sink (chunk size in the name; k0 = whole buffers), failure or Interrupted at any call",
             covers_unsat_ok=["write fails"]) for n in ("c14_wpkg_k0", "c14_wpkg_k1", "c14_wpkg_k2", "c14_wpkg_k5", "c14_wpkg_intr_k0", "c14_wpkg_intr_k1", "c14_wmeta_k1", "c14_wmeta_k0")]
+    + [MH("c14_resid_%d" % r, inputs="package whose signature header store has %d symbolic bytes (%d padding bytes); sink script symbolic" % (r, (-r) % 8), timeout=600, covers_unsat_ok=["write fails"],
+          tier=("quick" if r < 8 else "thorough"), bounds="Package::write into a sink accepting 1 byte per call, failure at any call: every signature store size mod 8") for r in range(0, 16)]
     + [MH("c14_meta_%d" % t, tier=("quick" if t <= 40 else "thorough"), timeout=(1800 if t <= 40 else 7200),
             inputs="lead + %d symbolic bytes; source hands out 1, 3 or 7 bytes per read/fill_buf; truncation at each of the last 24 offsets before the payload" % t,
             bounds="read side: PackageMetadata::parse from chunking / truncated sources, %d bytes after the lead" % t,
@@ -256,9 +260,12 @@ PROPERTIES["C08"] = {
     + [MH("c08_build_" + n, inputs="files of %s symbolic content bytes" % (n.replace("_", "/") if n != "empty" else "no"), timeout=900,
           bounds="PackageBuilder .. build() (MIR): header digest in the signature header, payload digest, alternate payload digest, per-file digests vs SHA-256 (uninterpreted) of the bytes they name")
        for n in ("empty", "1", "0_3", "2_1_4")]
+    + [MH("c08_build_%s_2_1" % c, inputs="two files of 2 and 1 symbolic bytes, %s compression with a symbolic level" % c, timeout=900,
+          bounds="as c08_build_*, the compressor an uninterpreted function of level and input: payload digest over the compressed bytes, alternate digest over the archive", covers_unsat_ok=["package built"])
+       for c in ("gzip", "xz", "bzip2", "zstd")]
     + [H("c08_twin", sub="digest", role="twin", timeout=900)],
     "bounds": "the hashing writer (Sha256Writer) with data of 1..4 symbolic bytes through inner sinks accepting 1, 2, 3 or all bytes per call; built packages with up to three files of 0..4 symbolic bytes, uncompressed",
-    "outside": "compressed payloads (the alternate digest then differs from the payload digest; compressors are FFI); digests after sign (needs real OpenPGP packets); longer data",
+    "outside": "what the compressors really emit (FFI; modelled as uninterpreted functions of level and input); digests after sign (needs real OpenPGP packets); longer data",
     "assumptions": A_COMMON + [A_S4, A_S5, A_SHAPES, "inner sink: KSink short writes only (no failure/Interrupted); std's write_all drives Sha256Writer::write"],
 }
 
@@ -340,7 +347,7 @@ _C09_QUICK_PAIRS = {("StringTag", "Int64"), ("Int8", "Int32"), ("Int8", "Int16")
 PROPERTIES["C09"] = {
     "harnesses": [MH("c09_build_" + n, inputs="builder scenario %s: file contents and modification times symbolic" % n, timeout=900,
                      bounds="PackageBuilder .. build() from MIR; both emitted headers against the structural validator; rpmlib(FileCaps) declared when capabilities are present")
-                  for n in ("empty", "files2", "utf8name", "scriptlets", "scriptlets_plain", "deps", "caps_first", "caps_last") + tuple("dep_" + k for k in ("requires", "provides", "obsoletes", "conflicts", "recommends", "suggests", "enhances", "supplements"))]
+                  for n in ("empty", "files2", "files2_gzip", "files2_xz", "files2_bzip2", "files2_zstd", "utf8name", "scriptlets", "scriptlets_plain", "deps", "caps_first", "caps_last") + tuple("dep_" + k for k in ("requires", "provides", "obsoletes", "conflicts", "recommends", "suggests", "enhances", "supplements"))]
     + [MH("c09_one_" + a, inputs="one record of type %s, tag and contents symbolic" % a, bounds="Header::from_entries with one record", timeout=600) for a in _C09V]
     + [MH("c09_pair_%s_%s" % (a, b), tier=("quick" if (a, b) in _C09_QUICK_PAIRS else "thorough"), timeout=900,
           inputs="two records of types %s and %s, tags symbolic (distinct), contents symbolic" % (a, b), bounds="Header::from_entries with two records") for a in _C09V for b in _C09V]
@@ -452,10 +459,12 @@ PROPERTIES["C06"] = {
 PROPERTIES["C07"] = {
     "harnesses": [MH("c07_rt_" + "_".join(map(str, sz)), inputs="files of %s symbolic content bytes" % "/".join(map(str, sz)), timeout=900,
                      bounds="PackageBuilder .. build() then Package::files() / FileIterator::next: cpio writer and reader, padding at every size mod 4, order by path") for sz in ((0,), (1,), (3,), (4,), (5,), (2, 3), (4, 0), (1, 2, 3))]
+    + [MH("c07_rt_%s_3_2" % c, inputs="files of 3/2 symbolic content bytes, %s compression with a symbolic level" % c, timeout=900, covers_unsat_ok=["package built"],
+          bounds="as c07_rt_*, compressor = uninterpreted function, decompressor = its inverse on exactly the compressor's outputs") for c in ("gzip", "xz", "bzip2", "zstd")]
     + [MH("c04_fileiter_%d" % n, role="foreign", inputs="header file size: any 64-bit value; %d symbolic content bytes in a well-formed newc archive" % n, bounds="foreign package: FileIterator::next returns the archive's bytes whatever size the header records", timeout=600)
        for n in (0, 1, 3, 4)],
     "bounds": "up to three files of 0..5 content bytes each (every size mod 4), contents symbolic, uncompressed payload, standard (newc) cpio",
-    "outside": "compressed payloads (FFI); the stripped (large-file) cpio format, which needs more than 4 GiB of content; files of more than 5 bytes; names other than /d/f<i>; foreign packages beyond the one-entry harnesses",
+    "outside": "what the compression libraries really do (FFI; compressor/decompressor modelled as an uninterpreted function and its inverse); the stripped (large-file) cpio format, which needs more than 4 GiB of content; files of more than 5 bytes; names other than /d/f<i>; foreign packages beyond the one-entry harnesses",
     "assumptions": A_MIR + _A_BUILD,
     "technique": None,
 }
